@@ -53,10 +53,19 @@ def run(ctx):
             for n_, rec in ar["record"].items():
                 b = base["record"][n_]
                 lim = nsteps if n_ == sup else 10 ** 9
-                want = min(b["n"], mr) if mr is not None else None
-                if want is not None and rec["n"] != want and not (mr == 0 and rec["n"] == 0):
-                    if not (mr is not None and rec["n"] <= mr and rec["n"] >= min(mr, b["n"]) - 1):
-                        res.fail("max_records", f"seed={seed} threaded: node {n_} recorded {rec['n']} rows with max_records={mr} (fully recorded run: {b['n']})", dict(task=t, spec=spec))
+                # how many steps the node executed in *this* run (a node other than the supervisor may be anywhere when the episode is
+                # stopped: its row count is schedule dependent and is not compared with another run's)
+                ex = (ar.get("executed") or {}).get(n_)
+                if mr is not None and ex is not None:
+                    res.count("max_records_checked_against_executed")
+                    if rec["n"] != min(ex, mr):
+                        res.fail("max_records", f"seed={seed} threaded: node {n_} executed {ex} steps with max_records={mr} and its record holds {rec['n']} rows (expected the first {min(ex, mr)})", dict(task=t, spec=spec, settings=st, max_records=mr))
+                elif mr is not None and n_ == sup:
+                    want = min(b["n"], mr)
+                    if rec["n"] != want and not (rec["n"] <= mr and rec["n"] >= want - 1):
+                        res.fail("max_records", f"seed={seed} threaded: supervisor {n_} recorded {rec['n']} rows with max_records={mr} (fully recorded run: {b['n']})", dict(task=t, spec=spec))
+                elif mr is not None and rec["n"] > mr:
+                    res.fail("max_records", f"seed={seed} threaded: node {n_} recorded {rec['n']} rows with max_records={mr}", dict(task=t, spec=spec))
                 kk = min(rec["n"], b["n"], lim)
                 for f in ("seq", "ts_start", "ts_end", "delay", "ts_scheduled", "ts_max"):
                     if f in rec and rec[f][:kk] != b[f][:kk]:
